@@ -580,6 +580,28 @@ int main(int argc, char** argv) {
   vg_share = 0;
   if (!strcmp(argv[1], "grow")) {
     long n = atol(argv[2]);
+    /* definite containers preallocated for counts whose byte size does not fit: refused, or really that large */
+    {
+      static const uint64_t huge[] = {(1ull << 59) + 1, 1ull << 60, (1ull << 60) + 2, (1ull << 61) + 1, (1ull << 62) + 3, (1ull << 63) + 1, ~0ull - 1, ~0ull};
+      va_cap = (size_t)64 << 20;
+      for (unsigned hi = 0; hi < sizeof huge / sizeof *huge; hi++)
+        for (int kind = 0; kind < 2; kind++) {
+          long live0 = va.live;
+          cbor_item_t* c = kind == 0 ? cbor_new_definite_array((size_t)huge[hi]) : cbor_new_definite_map((size_t)huge[hi]);
+          size_t elem = kind == 0 ? sizeof(cbor_item_t*) : sizeof(struct cbor_pair);
+          int under = 0;
+          size_t cap = 0;
+          if (c) {
+            cap = kind == 0 ? cbor_array_allocated(c) : cbor_map_allocated(c);
+            size_t bsz = c->data ? va_block_size(c->data) : 0;
+            if (bsz != (size_t)-1 && (cap > SIZE_MAX / elem || bsz < cap * elem)) under = 1; /* the block cannot hold what the container says it can */
+            cbor_decref(&c);
+          }
+          fprintf(vh_out, "{\"e\":\"hugecap\",\"kind\":%d,\"n\":", kind);
+          vh_u64(huge[hi]);
+          fprintf(vh_out, ",\"ok\":%s,\"cap_is_n\":%s,\"under\":%s,\"live\":%ld}\n", c || cap ? "true" : "false", cap == (size_t)huge[hi] ? "true" : "false", under ? "true" : "false", va.live - live0);
+        }
+    }
     for (int kind = 0; kind < 4; kind++) {
       grow_case(kind, n);
       grow_case(kind, 1 + (long)vh_randn(n));
